@@ -114,6 +114,12 @@ pub struct Config
     /// to `.0` systems per frame, `.1` = chained (a sync point between consecutive systems) or unordered (deferred
     /// commands applied together); `max_top` is then the number of frames and every frame is a full `App::update()`.
     pub frame: Option<(u32, bool)>,
+    /// Fixed top-level operations issued after the chosen ones (the C11 probe tree); announced in the trace by a
+    /// `probe-start` value event.
+    pub final_ops: Vec<Op>,
+    /// Scripts that are fixed by the configuration instead of chosen: (actor, run, ops). An actor that appears here
+    /// has empty scripts for all its other runs.
+    pub fixed_scripts: Vec<(ActorId, u16, Vec<Op>)>,
     /// Trigger entities prepared for auto-despawn at setup; the harness holds the only signal (`Op::DropSignal`).
     pub auto_ents: Vec<EntId>,
 }
@@ -143,6 +149,8 @@ impl Config
             final_gc: false,
             auto_ents: vec![],
             frame: None,
+            final_ops: vec![],
+            fixed_scripts: vec![],
         }
     }
 }
